@@ -594,6 +594,11 @@ is_default_constructible(CPPVisibility min_vis) const {
       if (!base->is_default_constructible(V_protected)) {
         return false;
       }
+      // A constructor potentially invokes the destructor of every sub-object
+      // it has constructed, so that needs to be usable as well.
+      if (!base->is_destructible(V_protected)) {
+        return false;
+      }
     }
   }
 
@@ -606,6 +611,12 @@ is_default_constructible(CPPVisibility min_vis) const {
     if (instance->_storage_class & CPPInstance::SC_static) {
       // Static members don't count.
       continue;
+    }
+
+    // The destructor of the member is potentially invoked, too.
+    assert(instance->_type != nullptr);
+    if (!get_member_object_type(instance->_type)->is_destructible()) {
+      return false;
     }
 
     if (instance->_initializer != nullptr) {
@@ -700,6 +711,10 @@ is_copy_constructible(CPPVisibility min_vis) const {
       if (!base->is_copy_constructible(V_protected)) {
         return false;
       }
+      // As above, the destructor of the sub-object is potentially invoked.
+      if (!base->is_destructible(V_protected)) {
+        return false;
+      }
     }
   }
 
@@ -716,7 +731,9 @@ is_copy_constructible(CPPVisibility min_vis) const {
 
     // An array member is copied element by element.
     assert(instance->_type != nullptr);
-    if (!get_member_object_type(instance->_type)->is_copy_constructible()) {
+    CPPType *object_type = get_member_object_type(instance->_type);
+    if (!object_type->is_copy_constructible() ||
+        !object_type->is_destructible()) {
       return false;
     }
   }
